@@ -27,4 +27,16 @@ auto verif_remove_dims_none_true(arr3_t shape) { return ix::remove_dims(shape,nm
 
 // ---- reduction_slices: which source elements feed the result element at `idx`
 auto verif_reduction_slices_int(sv_t idx, sv_t shape, int axis, bool keepdims) { return ix::reduction_slices(idx,shape,axis,keepdims); }
+// as reduce_t::operator() calls it: keepdims is one of the compile-time constants
+auto verif_reduction_slices_int_true(sv_t idx, sv_t shape, int axis)  { return ix::reduction_slices(idx,shape,axis,nm::True); }
+auto verif_reduction_slices_int_false(sv_t idx, sv_t shape, int axis) { return ix::reduction_slices(idx,shape,axis,nm::False); }
 auto verif_reduction_slices_axes(sv_t idx, sv_t shape, svi_t axes, bool keepdims) { return ix::reduction_slices(idx,shape,axes,keepdims); }
+
+// ---- the fold loops of view::reducer_t (reduce_t::operator() hands the sliced + flattened operand to them).
+//      Operand: a bounded sequence of symbolic length; op: an abstract binary operation (DESIGN 4.6) -- `verif_abs_op` has no body,
+//      the verifier treats it as an uninterpreted function (spec/c08.h), so nothing about op (associativity, commutativity) is assumed.
+using lv_t = nmtools::utl::static_vector<long,8>;
+extern "C" long verif_abs_op(long a, long b);
+struct verif_op_t { long operator()(long a, long b) const { return verif_abs_op(a,b); } };
+long verif_fold(lv_t x) { nm::view::reducer_t<verif_op_t> r{verif_op_t{}}; return r.template operator()<long>(x); }
+long verif_fold_init(lv_t x, long init) { nm::view::reducer_t<verif_op_t> r{verif_op_t{}}; return r.template operator()<long>(x,init); }
